@@ -10,11 +10,23 @@ package susclock
 // harness moves the fake time from instant to instant, delivers every base
 // timer expiry / base context deadline that is due at an instant one at a time
 // (random order) and waits with synctest.Wait until all goroutines are parked
-// again. Observables (instant at which Done() closes, Err(), the
-// UnsuspendedDurationKey value, timer firing instant and value, Stop results)
-// are compared with Model/SusClock.lean (driver drv_susclock), and judged by a
-// monitor that uses nothing but the harness's own record of when reads started
-// and ended.
+// again. In 2 of 5 histories expiries are delivered LATE (cfg field g): a timer
+// due at its stamp T is handed to the clock's goroutine only at T+late
+// (late <= g, drawn per timer from the history's seed) while the history goes
+// on suspending, resuming, cancelling and advancing in between - the window in
+// which the real goroutine waits for c.lock; the goroutine then works with the
+// stale stamp T on the current clock state. Deadlines of base contexts are
+// delayed likewise. The harness attributes every base timer to the
+// context/timer it belongs to and tells the model, per expiry, how late it was
+// handled and after how many Suspend/Resume calls.
+// Observables (instant at which Done() closes, Err(), the
+// UnsuspendedDurationKey value, timer firing instant and published value, Stop
+// results) are compared with Model/SusClock.lean (driver drv_susclock), and
+// judged by a monitor that uses nothing but the harness's own record of when
+// reads started and ended and of when expiries were due and delivered: wall
+// bound, never early, cancellation prompt, and "never late / reported
+// duration" modulo the unsuspended time that elapsed while expiries were
+// waiting to be handled (exactly, when nothing is late).
 //
 // Part 2 (wrappers_test.go): every call path of the two decorators suspends and
 // resumes an instrumented Suspendable exactly once.
@@ -45,10 +57,11 @@ const prop = "C11"
 type config struct {
 	maxS, thr, start, mul int64
 	rseed                 uint64
+	g                     int64 // base timer expiries / deadlines are handled up to g ticks late (0: never)
 }
 
 func (c config) String() string {
-	return fmt.Sprintf("cfg %d %d %d %d %d", c.maxS, c.thr, c.start, c.mul, c.rseed)
+	return fmt.Sprintf("cfg %d %d %d %d %d %d", c.maxS, c.thr, c.start, c.mul, c.rseed, c.g)
 }
 
 // op kinds: read id kind | done id | ctx id d par | cancel id | pcancel id |
@@ -74,8 +87,12 @@ func (o op) String() string {
 func parseConfig(s string) (config, error) {
 	var c config
 	var k string
-	_, err := fmt.Sscanf(s, "%s %d %d %d %d %d", &k, &c.maxS, &c.thr, &c.start, &c.mul, &c.rseed)
-	if err == nil && (k != "cfg" || c.thr < 1 || c.mul < 1 || c.maxS < 0 || c.start < 0) {
+	_, err := fmt.Sscanf(s, "%s %d %d %d %d %d %d", &k, &c.maxS, &c.thr, &c.start, &c.mul, &c.rseed, &c.g)
+	if err != nil { // histories recorded before late delivery existed
+		c.g = 0
+		_, err = fmt.Sscanf(s, "%s %d %d %d %d %d", &k, &c.maxS, &c.thr, &c.start, &c.mul, &c.rseed)
+	}
+	if err == nil && (k != "cfg" || c.thr < 1 || c.mul < 1 || c.maxS < 0 || c.start < 0 || c.g < 0) {
 		err = fmt.Errorf("bad cfg line %q", s)
 	}
 	return c, err
@@ -178,6 +195,7 @@ type trace struct {
 	problems []string
 	steps    int
 	baseTmrs int
+	fc       *fakeClock
 }
 
 const nReadKinds = 7
@@ -250,8 +268,17 @@ func execHistory(t *testing.T, c config, ops []op) *trace {
 func runBubble(c config, ops []op, tr *trace) {
 	m := c.mul
 	fc := &fakeClock{now: c.start * m}
+	tr.fc = fc
 	clk := re_clock.NewSuspendableClock(fc, time.Duration(c.maxS*m), time.Duration(c.thr*m))
 	rng := hx.NewRand(c.rseed)
+	lateRng := hx.NewRand(c.rseed + 0x5eed)
+	fc.lateFn = func() int64 {
+		if c.g == 0 || lateRng.Chance(2, 5) {
+			return 0
+		}
+		return (1 + int64(lateRng.Intn(int(c.g)))) * m
+	}
+	fc.posFn = func() int { return len(tr.events) }
 	quit := make(chan struct{})
 	ctxs := map[int]*ctxRec{}
 	timers := map[int]*timerRec{}
@@ -273,6 +300,7 @@ func runBubble(c config, ops []op, tr *trace) {
 	fireDue := func() {
 		for i := 0; !dead && fc.fireOne(rng.Intn); i++ {
 			synctest.Wait()
+			fc.setOwner("")
 			tr.steps++
 			if i > 5000 {
 				problem("livelock: base timers keep becoming due at one instant (a timer is re-armed with a non-positive duration forever)")
@@ -368,6 +396,7 @@ func runBubble(c config, ops []op, tr *trace) {
 					cr.hasCancel, cr.cancelAt, cr.cancelPre = true, now, true
 				}
 			}
+			fc.setOwner(fmt.Sprintf("c%d", o.id))
 			cr.ctx, cr.cancel = clk.NewContextWithTimeout(p, time.Duration(cr.d))
 			if dl, ok := cr.ctx.Deadline(); ok {
 				cr.hasDL, cr.deadline = true, dl.UnixNano()
@@ -403,6 +432,7 @@ func runBubble(c config, ops []op, tr *trace) {
 			}
 			tm := &timerRec{id: o.id, t0: now, d: o.a * m}
 			var ch <-chan time.Time
+			fc.setOwner(fmt.Sprintf("t%d", o.id))
 			tm.tm, ch = clk.NewTimer(time.Duration(tm.d))
 			timers[o.id] = tm
 			tr.timers = append(tr.timers, tm)
@@ -435,6 +465,7 @@ func runBubble(c config, ops []op, tr *trace) {
 			continue
 		}
 		synctest.Wait()
+		fc.setOwner("")
 		tr.steps++
 		checkErrNil()
 	}
@@ -490,25 +521,63 @@ func (tr *trace) unsusp(a, b int64) int64 {
 	return (b - a) - covered
 }
 
+// gap is the unsuspended time that elapsed, up to instant x, while base timer
+// expiries were waiting to be handled (between a timer's stamp and its delivery
+// or Stop). It is what the goroutines of the clock could not know about in
+// time: the budget rules are judged modulo this amount. 0 when nothing is late.
+func (tr *trace) gap(x int64) int64 {
+	var g int64
+	if tr.fc == nil {
+		return 0
+	}
+	for _, t := range tr.fc.gaps {
+		end := t.endAt
+		if end < 0 || end > x {
+			end = x
+		}
+		if t.expiry < end {
+			g += tr.unsusp(t.expiry, end)
+		}
+	}
+	return g
+}
+
+// wallOf returns the wall-clock bound of owner plus the lateness with which the
+// harness delivers the deadline of its base context (or its maximumSuspensionTimer).
+func (tr *trace) wallOf(owner string, bound int64) int64 {
+	if tr.fc != nil {
+		if r := tr.fc.owners[owner]; r != nil && r.dlSet {
+			return bound + r.dlLate
+		}
+	}
+	return bound
+}
+
 func (tr *trace) monitor() string {
 	if len(tr.problems) > 0 {
 		return tr.problems[0]
 	}
 	m := tr.cfg.mul
 	maxS, thr := tr.cfg.maxS*m, tr.cfg.thr*m
+	late := tr.cfg.g > 0
+	if tr.fc != nil && tr.fc.orphans > 0 {
+		return "harness: a base timer or context was created that cannot be attributed to a context/timer of the history"
+	}
 	for _, cr := range tr.ctxs {
 		name := fmt.Sprintf("context %d (created at %d, timeout %d)", cr.id, cr.t0, cr.d)
-		wall := cr.t0 + cr.d + maxS
+		bound := cr.t0 + cr.d + maxS
+		wall := tr.wallOf(fmt.Sprintf("c%d", cr.id), bound)
 		if cr.earlyErr {
 			return name + ": Err() was non-nil before Done() was closed"
 		}
 		if cr.running {
-			// still running at the end instant, after everything due was delivered
+			// still running at the end instant, after everything to be delivered by then was delivered
 			if tr.end >= wall {
-				return fmt.Sprintf("%s still running at %d, past the wall-clock bound timeout + maximum suspension = %d", name, tr.end, wall)
+				return fmt.Sprintf("%s still running at %d, past the wall-clock bound timeout + maximum suspension = %d (deadline delivered at %d)", name, tr.end, bound, wall)
 			}
-			if u := tr.unsusp(cr.t0, tr.end); u >= cr.d {
-				return fmt.Sprintf("%s still running at %d although %d >= timeout of unsuspended time has passed", name, tr.end, u)
+			u, g := tr.unsusp(cr.t0, tr.end), tr.gap(tr.end)
+			if u > cr.d+g || (!late && u >= cr.d) {
+				return fmt.Sprintf("%s still running at %d although %d of unsuspended time has passed (timeout %d; %d of it elapsed while expiries waited to be handled)", name, tr.end, u, cr.d, g)
 			}
 			continue
 		}
@@ -516,16 +585,17 @@ func (tr *trace) monitor() string {
 			return name + ": never completed, not even after cancellation"
 		}
 		T := cr.doneAt
-		u := tr.unsusp(cr.t0, T)
+		u, g := tr.unsusp(cr.t0, T), tr.gap(T)
 		if T > wall {
-			return fmt.Sprintf("%s completed at %d, later than timeout + maximum suspension = %d", name, T, wall)
+			return fmt.Sprintf("%s completed at %d, later than timeout + maximum suspension = %d (deadline delivered at %d)", name, T, bound, wall)
 		}
-		if u > cr.d {
-			return fmt.Sprintf("%s completed at %d after %d of unsuspended time, more than its timeout", name, T, u)
+		if u > cr.d+g {
+			return fmt.Sprintf("%s completed at %d after %d of unsuspended time, more than its timeout (only %d of it elapsed while expiries waited to be handled)", name, T, u, g)
 		}
 		if cr.hasCancel && T > cr.cancelAt {
 			return fmt.Sprintf("%s was cancelled at %d but completed only at %d", name, cr.cancelAt, T)
 		}
+		exact := !late
 		switch errClass(cr.err) {
 		case "deadline":
 			if u+thr <= cr.d && T != wall {
@@ -535,51 +605,61 @@ func (tr *trace) monitor() string {
 			if !cr.hasCancel || cr.cancelAt != T {
 				return fmt.Sprintf("%s reports Canceled at %d but nobody cancelled it then", name, T)
 			}
+			exact = true
 		default:
 			return fmt.Sprintf("%s completed with unexpected error %v", name, cr.err)
 		}
 		if !cr.durOK {
 			return name + ": Value(UnsuspendedDurationKey{}) is not a time.Duration"
 		}
-		if int64(cr.dur) != u {
-			return fmt.Sprintf("%s reports unsuspended duration %d but it ran for %d of unsuspended time (completed at %d)", name, int64(cr.dur), u, T)
+		dur := int64(cr.dur)
+		if exact && dur != u {
+			return fmt.Sprintf("%s reports unsuspended duration %d but it ran for %d of unsuspended time (completed at %d)", name, dur, u, T)
 		}
-		if !cr.hasDL || cr.deadline < T {
-			return fmt.Sprintf("%s: Deadline() = %d is not an upper bound of the completion instant %d", name, cr.deadline, T)
+		// expiries handled late: the charge is taken at the stamp of the last expiry, which lies at most
+		// the waiting time before the completion instant; never more than really ran, never more than
+		// timeout + waiting time
+		if dur > u || dur+g < u || dur > cr.d+g {
+			return fmt.Sprintf("%s reports unsuspended duration %d; it ran for %d of unsuspended time (completed at %d), timeout %d, %d elapsed while expiries waited to be handled", name, dur, u, T, cr.d, g)
+		}
+		if !cr.hasDL || cr.deadline+(wall-bound) < T {
+			return fmt.Sprintf("%s: Deadline() = %d is not an upper bound of the completion instant %d (deadline delivered %d late)", name, cr.deadline, T, wall-bound)
 		}
 	}
 	for _, tm := range tr.timers {
 		name := fmt.Sprintf("timer %d (created at %d, duration %d)", tm.id, tm.t0, tm.d)
-		wall := tm.t0 + tm.d + maxS
+		bound := tm.t0 + tm.d + maxS
+		wall := tr.wallOf(fmt.Sprintf("t%d", tm.id), bound)
 		stoppedEarly := tm.hasStop && len(tm.stopRets) > 0 && tm.stopRets[0]
 		if !tm.fired {
 			if stoppedEarly {
 				continue
 			}
 			if tr.end >= wall {
-				return fmt.Sprintf("%s has not fired at %d, past duration + maximum suspension = %d", name, tr.end, wall)
+				return fmt.Sprintf("%s has not fired at %d, past duration + maximum suspension = %d (delivered at %d)", name, tr.end, bound, wall)
 			}
-			if u := tr.unsusp(tm.t0, tr.end); u >= tm.d {
-				return fmt.Sprintf("%s has not fired at %d although %d >= duration of unsuspended time has passed", name, tr.end, u)
+			u, g := tr.unsusp(tm.t0, tr.end), tr.gap(tr.end)
+			if u > tm.d+g || (!late && u >= tm.d) {
+				return fmt.Sprintf("%s has not fired at %d although %d of unsuspended time has passed (duration %d; %d of it while expiries waited)", name, tr.end, u, tm.d, g)
 			}
 			continue
 		}
 		T := tm.firedAt
-		u := tr.unsusp(tm.t0, T)
+		u, g := tr.unsusp(tm.t0, T), tr.gap(T)
 		if stoppedEarly && T >= tm.stopAt {
 			return fmt.Sprintf("%s fired at %d although Stop() returned true at %d", name, T, tm.stopAt)
 		}
 		if T > wall {
-			return fmt.Sprintf("%s fired at %d, later than duration + maximum suspension = %d", name, T, wall)
+			return fmt.Sprintf("%s fired at %d, later than duration + maximum suspension = %d (delivered at %d)", name, T, bound, wall)
 		}
-		if u > tm.d {
-			return fmt.Sprintf("%s fired at %d after %d of unsuspended time, more than its duration", name, T, u)
+		if u > tm.d+g {
+			return fmt.Sprintf("%s fired at %d after %d of unsuspended time, more than its duration (only %d of it while expiries waited)", name, T, u, g)
 		}
 		if u+thr <= tm.d && T != wall {
 			return fmt.Sprintf("%s fired early at %d: only %d of unsuspended time had passed (threshold %d)", name, T, u, thr)
 		}
-		if tm.val != T {
-			return fmt.Sprintf("%s fired at %d but published time %d", name, T, tm.val)
+		if tm.val > T || tm.val+tr.cfg.g*m < T {
+			return fmt.Sprintf("%s fired at %d but published time %d (expiries are handled at most %d late)", name, T, tm.val, tr.cfg.g*m)
 		}
 	}
 	return ""
@@ -626,32 +706,54 @@ func (tr *trace) compare(drv *hx.Driver) (out cmp) {
 			return fail(fmt.Sprintf("%s %d", k, e.t), "ok …", s)
 		}
 	}
-	query := func(t0, d int64, hasC bool, cAt int64, cPre bool) (string, int64, string, int64) {
-		line := fmt.Sprintf("ctx %d %d", t0, d)
+	b2i := func(b bool) int {
+		if b {
+			return 1
+		}
+		return 0
+	}
+	// query asks the model for the fate of a context/timer, telling it when and in which clock state
+	// each of its base timer expiries was handled (all on time when g = 0) and how late the deadline
+	// of its base context was delivered. Answer: instant, reason, duration, stamp of the last expiry.
+	query := func(owner string, t0, d int64, hasC bool, cAt int64, cPre bool) (string, int64, string, int64, int64) {
 		if !hasC {
 			// the harness cancels everything that is left at the end instant, after all due events
 			cAt, cPre = tr.end, false
 		}
-		p := 0
-		if cPre {
-			p = 1
+		var dlLate int64
+		dlPre := false
+		var dv []*delivery
+		if tr.fc != nil {
+			if r := tr.fc.owners[owner]; r != nil {
+				dlLate, dlPre, dv = r.dlLate, r.dlPre, r.deliveries
+			}
 		}
-		line += fmt.Sprintf(" %d %d", cAt, p)
+		line := fmt.Sprintf("ctxl %d %d %d %d %d %d %d", t0, d, cAt, b2i(cPre), tr.cfg.g*m, dlLate, b2i(dlPre))
+		for _, x := range dv {
+			line += fmt.Sprintf(" %d %d", x.late, x.pos)
+			if x.delivered && x.late > 0 {
+				out.flags["expiry-handled-late"] = true
+				if x.pos > 0 && tr.events[x.pos-1].t > x.stamp {
+					out.flags["call-between-due-and-handled"] = true
+				}
+			}
+		}
 		ans := ask(line)
 		f := strings.Fields(ans)
-		if len(f) != 3 {
-			return line, -1, ans, 0
+		if len(f) != 4 {
+			return line, -1, ans, 0, 0
 		}
 		inst, _ := strconv.ParseInt(f[0], 10, 64)
 		dur, _ := strconv.ParseInt(f[2], 10, 64)
-		return line, inst, f[1], dur
+		stamp, _ := strconv.ParseInt(f[3], 10, 64)
+		return line, inst, f[1], dur, stamp
 	}
 	for _, cr := range tr.ctxs {
 		out.evals++
-		line, inst, reason, dur := query(cr.t0, cr.d, cr.hasCancel, cr.cancelAt, cr.cancelPre)
+		line, inst, reason, dur, _ := query(fmt.Sprintf("c%d", cr.id), cr.t0, cr.d, cr.hasCancel, cr.cancelAt, cr.cancelPre)
 		exp := fmt.Sprintf("%d %s %d", inst, reason, dur)
 		if inst < 0 {
-			return fail(line, "instant reason dur", reason)
+			return fail(line, "instant reason dur stamp", reason)
 		}
 		if !cr.hasCancel && inst == tr.end && reason == "cancelled" {
 			// model: still running when the history ends
@@ -687,11 +789,15 @@ func (tr *trace) compare(drv *hx.Driver) (out cmp) {
 	}
 	for _, tm := range tr.timers {
 		out.evals++
-		line, inst, reason, _ := query(tm.t0, tm.d, tm.hasStop, tm.stopAt, tm.stopPre)
+		line, inst, reason, _, stamp := query(fmt.Sprintf("t%d", tm.id), tm.t0, tm.d, tm.hasStop, tm.stopAt, tm.stopPre)
 		if inst < 0 {
-			return fail(line, "instant reason dur", reason)
+			return fail(line, "instant reason dur stamp", reason)
 		}
-		exp := fmt.Sprintf("fires at %d (%s)", inst, reason)
+		val := stamp // the published time is the stamp of the expiry that was handled …
+		if reason == "capped" {
+			val = tm.t0 + tm.d + tr.cfg.maxS*m // … or of the maximum suspension timer
+		}
+		exp := fmt.Sprintf("fires at %d value %d (%s)", inst, val, reason)
 		act := "does not fire"
 		if tm.fired {
 			act = fmt.Sprintf("fires at %d value %d", tm.firedAt, tm.val)
@@ -709,7 +815,7 @@ func (tr *trace) compare(drv *hx.Driver) (out cmp) {
 			out.flags["timer-stopped"] = true
 			continue
 		}
-		if !tm.fired || tm.firedAt != inst || tm.val != inst {
+		if !tm.fired || tm.firedAt != inst || tm.val != val {
 			return fail("timer: "+line, exp, act)
 		}
 		for _, r := range tm.stopRets {
@@ -737,6 +843,9 @@ func gen(r *hx.Rand, drv *hx.Driver) (config, []op) {
 	}
 	if r.Chance(1, 8) {
 		c.mul = 1000000
+	}
+	if r.Chance(2, 5) { // base timer expiries / deadlines handled late
+		c.g = []int64{1, 2, 3, 5, 8, 12}[r.Intn(6)]
 	}
 	var ops []op
 	add := func(o op) {
@@ -927,7 +1036,7 @@ func TestHarness(t *testing.T) {
 	res := hx.NewResult("susclock", o, "part 1: real SuspendableClock over a fake base clock in a synctest bubble; histories of 0-12 storage reads "+
 		"(direct Suspend/Resume or through the real suspending BlobAccess/DirectoryFetcher decorators; nested, overlapping, zero-length, starting/ending exactly at timer expiries), "+
 		"1-3 contexts/timers with timeouts 0..50 and 10000, maximumSuspension 0..40, threshold 1..8, cancellation by CancelFunc/parent/Stop at random and at model-predicted expiry instants "+
-		"with both tie orders; non-trivial = some context or timer completed by deadline strictly later than creation+timeout (compensated) and at least two reads overlapped; "+
+		"with both tie orders; in 2/5 of the histories base timer expiries and base deadlines are handled up to g=1..12 ticks late with suspend/resume/cancel in between; non-trivial = some context or timer completed by deadline strictly later than creation+timeout (compensated) and at least two reads overlapped; "+
 		"distinct = hash of the op list. part 2: every call path of NewSuspendingBlobAccess/NewSuspendingDirectoryFetcher x outcome x buffer consumption, suspends==resumes==1")
 	drv, err := hx.StartDriver("susclock")
 	if err != nil {
@@ -993,7 +1102,10 @@ func TestHarness(t *testing.T) {
 		histories = 80000 * o.Scale
 	}
 	rng := hx.NewRand(o.Seed)
-	for h := 0; h < histories && len(res.Findings) == 0; h++ {
+	// Stop at the first history that violates the property itself. After a mere disagreement with the
+	// model keep looking (for a bounded number of histories) for a history that does.
+	mismatches, budget := 0, histories
+	for h := 0; h < histories && h < budget; h++ {
 		c, ops := gen(rng, drv)
 		v := evaluate(t, c, ops, drv)
 		res.Evaluations += v.tr.steps + v.cmp.evals
@@ -1011,9 +1123,20 @@ func TestHarness(t *testing.T) {
 			res.Count("history-scaled-1e6")
 		}
 		res.History(append([]string{c.String()}, strs(ops)...), v.cmp.flags["compensated"] && v.cmp.flags["overlapping-reads"])
-		if v.monitor != "" || v.cmp.mismatch != "" {
+		if v.monitor != "" {
 			report(c, ops, v)
+			break
 		}
+		if v.cmp.mismatch != "" {
+			if mismatches == 0 {
+				report(c, ops, v)
+				budget = h + 3000
+			}
+			mismatches++
+		}
+	}
+	if mismatches > 1 {
+		res.Notes = append(res.Notes, fmt.Sprintf("%d further histories disagreed with the model", mismatches-1))
 	}
 	res.ModelLines = drv.Lines
 	res.Write(o)
